@@ -44,6 +44,25 @@ def is_limit_param(body, term, tonic=None):
     return tonic is not None and lo is not None and lo in locs_of_type(tonic, body, LIMIT_TY)
 
 
+def _direct_use(t, is_limit, depth=0):
+    """the term IS the limit, or simple arithmetic / a conversion / min / max over it - as opposed to a value that merely depends
+    on a path on which the limit was looked at (the result of a helper that also builds the error message)"""
+    t = strip_casts(strip_refs(t))
+    if not isinstance(t, tuple) or not t or depth > 6:
+        return False
+    if t[0] == 'const':
+        return False
+    if is_limit(t):
+        return True
+    if t[0] == 'bin':
+        return _direct_use(t[2], is_limit, depth + 1) or _direct_use(t[3], is_limit, depth + 1)
+    if t[0] == 'un':
+        return _direct_use(t[2], is_limit, depth + 1)
+    if is_call(t) and t[3] in ('min', 'max', 'from', 'into', 'try_from', 'try_into', 'unwrap', 'unwrap_or', 'expect', 'saturating_mul', 'saturating_add', 'saturating_sub', 'checked_mul', 'checked_add', 'clone'):
+        return any(_direct_use(a, is_limit, depth + 1) for a in t[2])
+    return False
+
+
 def run(R):
     tonic = R.crate('tonic')
     W = spec('wire')
@@ -122,7 +141,7 @@ def run(R):
                 continue
             for a2 in t2['args']:
                 o2 = b.origin(a2)
-                if term_contains(o2, lambda x: same_limit(x) and isinstance(strip_refs(x), tuple) and strip_refs(x)[:1] != ('const',)):
+                if _direct_use(o2, same_limit):
                     leaks.append((bb2, t2))
                     break
         # the comparison itself and the resolution of the default are not "uses"
